@@ -565,6 +565,28 @@ def discharge(r, a):
     r.core.removeAssembly(a, discharge=True)
 
 
+# where in the pool the discharged assembly is when the snapshot is taken ("the same ... grid locations": an assembly
+# in the pool is found in ITS cell after loading, not in the cell the pool would hand out next)
+POOL_CELL = ["the next free cell in filling order",
+             "a cell chosen for it: moved inside the pool to cell (-3, 2)",
+             "behind a gap: another assembly went into the pool before it and has been taken out of the pool again"]
+CHOSEN_POOL_CELL = (-3, 2, 0)
+
+
+def discharge_to(r, a, assems, poolCell):
+    sfp = r.excore["sfp"]
+    if poolCell == 2:
+        other = [x for x in assems if x is not a][-1]
+        discharge(r, other)
+        discharge(r, a)
+        sfp.remove(other)
+        return
+    discharge(r, a)
+    if poolCell == 1:
+        sfp.remove(a)
+        sfp.add(a, sfp.spatialGrid[CHOSEN_POOL_CELL])
+
+
 # Parameters that are not free state: they mirror geometry, composition, numbering or a setting, and the model itself
 # (not only the loader) re-derives them from that other state; giving one an arbitrary number makes the SAVED reactor
 # self-inconsistent, so "every free parameter is assigned" leaves them alone.  They are still compared after loading.
@@ -673,27 +695,33 @@ def pick(x, lo, hi):
 LAST = (0, 3)               # none / the third assembly (fuel a: pin lattice block, highest assembly number)
 ALL = (0, 1, 2, 3)
 QUICK = [dict(modes=(False, True), assemblies=LAST, levels=("none",), atMost=2),
+         dict(modes=(False, True), assemblies=LAST, levels=("none",), atMost=1, poolCells=(1, 2)),
          dict(modes=(False, True), assemblies=(0,), atMost=1,
               levels=tuple(lv for lv in ASSIGN_LEVELS[1:] if lv not in ("reactor", "fuel block", "linked component",
                                                                          "derived-shape component")))]
 THOROUGH = [dict(modes=(ro,), assemblies=ALL, levels=(lv,), atMost=3) for ro in (False, True) for lv in ASSIGN_LEVELS]
+THOROUGH += [dict(modes=(False, True), assemblies=ALL, levels=("none", "spent fuel pool", "assembly"), atMost=2,
+                  poolCells=(1, 2))]
 
 
 @harness("C04", bounds="reactor built from one YAML blueprint (hex third core, 3 assemblies x 3 blocks of two designs "
                        "incl. a 7-pin lattice block, linked dimensions, derived shape, Cartesian spent fuel pool). "
                        "Solver-chosen history before the snapshot: which assembly (none / 1st / 2nd / 3rd) changed "
                        "block heights; which was burnt (U235 depleted, percentBu advanced); which had its fuel heated "
-                       "by 75 K; which was discharged to the spent fuel pool; which object (none / reactor / core / "
+                       "by 75 K; which was discharged to the spent fuel pool, and which pool cell it is in at the snapshot (the "
+                       "next free one in filling order / a chosen cell (-3, 2) it was moved to / the second cell, the "
+                       "first one having been vacated again: a gap); which object (none / reactor / core / "
                        "pool / assembly / block / pinned block / fuel, linked or derived-shape component / two blocks "
                        "with arrays of different lengths) had every free persistent parameter assigned a new value "
                        "of its kind, or (instead) a component of a pin block was moved to free coordinates "
                        "(1.5, 2.0, 0.0) inside the block's grid; load mode (plain with cs and blueprints handed over / read-only with both "
                        "re-read from the file).  Quick tier: any 2 of the four assembly-level changes happening to "
                        "the 3rd assembly, or one assignment (core, pool, assembly, pinned block, fuel component, two "
-                       "blocks, free coordinates), each with both load modes; thorough: any 3 of the five kinds, each on any assembly "
+                       "blocks, free coordinates), or a discharge of the 3rd assembly into a chosen cell / behind a gap, each with "
+                       "both load modes; thorough: any 3 of the five kinds, each on any assembly "
                        "/ any object.  Parameter values concrete.",
          stubs=STUBS, max_paths=5000, raises=(), instances={"quick": QUICK, "thorough": THOROUGH})
-def saved_reactor_loads_back_observationally_equal(ctx, modes, assemblies, levels, atMost):
+def saved_reactor_loads_back_observationally_equal(ctx, modes, assemblies, levels, atMost, poolCells=(0,)):
     _install()
     _fresh_process_state()
     nA = len(WHICH_ASSEMBLY) - 1
@@ -703,6 +731,10 @@ def saved_reactor_loads_back_observationally_equal(ctx, modes, assemblies, level
     gone = ctx.int("assemblyDischargedToPool", 0, nA)
     level = ctx.int("objectWithAllFreeParametersAssigned", 0, len(ASSIGN_LEVELS) - 1)
     readOnly = ctx.bool("loadedReadOnly")
+    poolCell = ctx.int("poolCellOfTheDischargedAssembly", 0, len(POOL_CELL) - 1)
+    ctx.assume(OR(*[poolCell == k for k in poolCells]))
+    if 0 not in poolCells:
+        ctx.assume(gone != 0)
     for x in (heights, burnt, heated, gone):
         ctx.assume(OR(*[x == k for k in assemblies]))
     ctx.assume(OR(*[level == ASSIGN_LEVELS.index(lv) for lv in levels]))
@@ -710,6 +742,7 @@ def saved_reactor_loads_back_observationally_equal(ctx, modes, assemblies, level
     ctx.assume(sum(ITE(x != 0, 1, 0) for x in (heights, burnt, heated, gone, level)) <= atMost)
     heights, burnt, heated, gone = (pick(x, 0, nA) for x in (heights, burnt, heated, gone))
     level = ASSIGN_LEVELS[pick(level, 0, len(ASSIGN_LEVELS) - 1)]
+    poolCell = pick(poolCell, 0, len(POOL_CELL) - 1)
     readOnly = True if readOnly else False
     cs, bp, r = build()
     assems = list(r.core)
@@ -732,7 +765,7 @@ def saved_reactor_loads_back_observationally_equal(ctx, modes, assemblies, level
     elif level != "none":
         assign_free_parameters(_target(r, assems, level))
     if gone:
-        discharge(r, _assembly(assems, gone))
+        discharge_to(r, _assembly(assems, gone), assems, poolCell)
     r.core.setBlockMassParams()       # the bookkeeping armi's own operators do after changing masses (fuel handler)
     r.p.cycle, r.p.timeNode, r.p.time = 1, 2, 350.0
     r.sort()
@@ -749,7 +782,7 @@ def saved_reactor_loads_back_observationally_equal(ctx, modes, assemblies, level
         first = store.load(r, bp, readOnly)
         got = observe(first)
         if 3 in assemblies:      # one particular history of the instance (a wrong expectation there must be found)
-            rare = (heights, burnt, heated, gone) == (0, 0, 0, 3)
+            rare = (heights, burnt, heated, gone) == (0, 0, 0, 3) and poolCell == poolCells[-1]
         else:
             rare = level == levels[min(1, len(levels) - 1)] and readOnly == modes[-1]
         if ctx.canary and rare:
